@@ -173,6 +173,11 @@ func (e *Event) Fields(fields interface{}) *Event {
 // Use zerolog.Dict() to create the dictionary.
 func (e *Event) Dict(key string, dict *Event) *Event {
 	if e == nil {
+		// The dict was taken from the pool by the caller; give it back even
+		// though the event is disabled.
+		if dict != nil {
+			putEvent(dict)
+		}
 		return e
 	}
 	dict.buf = enc.AppendEndMarker(dict.buf)
@@ -193,6 +198,11 @@ func Dict() *Event {
 // implement the LogArrayMarshaler interface.
 func (e *Event) Array(key string, arr LogArrayMarshaler) *Event {
 	if e == nil {
+		// An *Array built with Arr() comes from the pool; give it back even
+		// though the event is disabled.
+		if a, ok := arr.(*Array); ok && a != nil {
+			putArray(a)
+		}
 		return e
 	}
 	e.buf = enc.AppendKey(e.buf, key)
